@@ -422,8 +422,9 @@ impl TransformerContext {
         Ok(())
     }
 
-    pub fn get_top_element(&self) -> Option<SvgElement> {
-        self.element_stack.last().cloned()
+    /// Is processing at the top level of the document, i.e. not inside any element?
+    pub fn at_top_level(&self) -> bool {
+        self.current_depth == 0
     }
 
     pub fn set_prev_element(&mut self, el: &SvgElement) {
